@@ -88,8 +88,8 @@ fn check_trace(text: &str, enc: Enc) -> Result<Framed, String> {
         return Err(format!(
             "[{}] lines reaching the section parsers differ at position {i}: got {:?}, framing rules give {:?} ({} vs {} lines)",
             enc.name(),
-            got.trace.get(i),
-            want.trace.get(i),
+            got.trace.get(i).map(|(s, l)| (s, l.chars().take(160).collect::<String>(), l.len())),
+            want.trace.get(i).map(|(s, l)| (s, l.chars().take(160).collect::<String>(), l.len())),
             got.trace.len(),
             want.trace.len()
         ));
@@ -279,6 +279,39 @@ pub fn run(ctx: &mut Ctx) {
             _ => ">5 lines reach parsers",
         });
         check_beatmap_level(&text, &fr, t).map_err(|m| Fail::new(m, "osu", text.clone().into_bytes()))
+    });
+
+    // scale: one very long line (4 KiB .. 200 K characters, around the usual buffer sizes) between ordinary kinds,
+    // and very many rejected lines before real content
+    let cases = ctx.tier.pick(240u64, 2_400u64);
+    ctx.pbt("c05-long-lines", cases, 200, |t, st| {
+        let many = t.chance(12);
+        let text = if many {
+            crate::gen::doc::gen_many_lines_doc(t)
+        } else {
+            let (pre, _) = gen_seq(t);
+            let (post, term) = gen_seq(t);
+            let (term, last) = TERMS[term];
+            let (sec, line) = crate::gen::doc::long_line(t);
+            let mut seq: Vec<&str> = pre.into_iter().take(6).collect();
+            seq.push(sec);
+            seq.push(&line);
+            seq.extend(post.into_iter().take(6));
+            assemble(&seq, term, last)
+        };
+        for enc in ENCS {
+            st.eval();
+            match check_trace(&text, enc) {
+                Ok(fr) => {
+                    if !fr.trace.is_empty() {
+                        st.nontrivial(hash64(&(text.as_str(), enc.name())));
+                    }
+                }
+                Err(m) => return Err(Fail::new(m, "osu", encode_text(&text, enc))),
+            }
+        }
+        st.label(if many { "very many lines" } else { "very long line" });
+        Ok(())
     });
 }
 
